@@ -2,6 +2,7 @@ package checks
 
 import (
 	"fmt"
+	"strings"
 
 	"verif/explore"
 
@@ -145,7 +146,18 @@ func c01SemSpecs(quick bool) []*SeqSpec {
 func init() {
 	comboCheck(comboDef{id: "C01", level: "exploration",
 		sched: func(q bool) *SchedPlan {
-			return &SchedPlan{Specs: coreSchedSpecs(q), Monitors: []MonitorFactory{MonitorC01}, Oracles: []Oracle{OracleC01Quiescent},
+			specs := coreSchedSpecs(q)
+			// holds that enter a long expiry table at once (persist-immediately flag, expiry > 5 s): the key's
+			// manager is moved from the fast slot to the slow-path map right after the grant
+			cfg1 := hapi.Config{FastKeys: 1, Concurrent: 1}
+			ul := unlockAll([]byte{1, 2}, []byte{1, 2, 3})
+			zl := func(req, key, id byte) Step { return C(withEF(L(req, key, id, 0, 10, 0, 0), efZeroAof)) }
+			specs = append(specs,
+				&EngSpec{Name: "long-expiry-lock-vs-lock", Cfg: cfg1, Fine: true,
+					Threads: [][]Step{{zl(1, 1, 1)}, {C(L(2, 1, 2, 0, 10, 0, 0))}}, Unlock: ul},
+				&EngSpec{Name: "long-expiry-two-keys-one-slot", Cfg: cfg1, Fine: true,
+					Threads: [][]Step{{zl(1, 1, 1), C(U(2, 1, 1))}, {zl(3, 2, 2), C(L(4, 1, 3, 0, 10, 0, 0))}}, Unlock: ul})
+			return &SchedPlan{Specs: specs, Monitors: []MonitorFactory{MonitorC01}, Oracles: []Oracle{OracleC01Quiescent},
 				Bound: func(s *EngSpec, q bool) int {
 					timed := false
 					for _, t := range s.Threads {
@@ -156,7 +168,7 @@ func init() {
 						}
 					}
 					if q {
-						if timed || len(s.Threads) > 2 {
+						if timed || len(s.Threads) > 2 || strings.HasPrefix(s.Name, "long-expiry") {
 							return 2
 						}
 						return 3
